@@ -777,10 +777,6 @@ func (p *Parser) parseSwitch() ast.Node {
 // validateImportPath ensures that a given path string only contains valid identifiers
 // separated by slash characters. Returns error if invalid.
 func validateImportPath(path string) error {
-	// Remove quotes if present - these are added when we convert an
-	// identifier to a string in parseImport
-	path = strings.Trim(path, "\"")
-
 	// Valid path pattern: one or more valid identifiers separated by forward slashes
 	// An identifier must start with a letter or underscore and can contain letters, digits, or underscores
 	validPath := regexp.MustCompile(`^([a-zA-Z_][a-zA-Z0-9_]*)(\/[a-zA-Z_][a-zA-Z0-9_]*)*$`)
